@@ -326,6 +326,8 @@ static int run_cmd(struct ctx *c, char **t, int nt) {
   if (!strcmp(op, "onerr_free")) { if (last_rc) { int h = HND(1); econf_freeFile(c->H[h]); c->H[h] = NULL; } return 0; }   /* release a caller-made object after a failed call (silent) */
   if (!strcmp(op, "onerr_skip")) { skip_n = last_rc ? atoi(ARG(1)) : 0; return 0; }   /* skip the next N commands if the last call failed */
   if (!strcmp(op, "case")) { skip_n = 0; fprintf(o, "{\"op\":\"case\",\"id\":\"%s\"}\n", ARG(1) ? ARG(1) : ""); free(watch_case); watch_case = strdup(ARG(1) ? ARG(1) : ""); alarm(20); return 0; }
+  /* watchdog <seconds> : a case that is known to be big (thousands of entries through every getter) asks for more time */
+  if (!strcmp(op, "watchdog")) { alarm((unsigned)atoi(ARG(1))); return 0; }
   if (!strcmp(op, "echo")) { fprintf(o, "{\"op\":\"echo\",\"id\":\"%s\"}\n", ARG(1) ? ARG(1) : ""); return 0; }
   if (!strcmp(op, "end")) { fprintf(o, "{\"op\":\"end\"}\n"); fflush(o); return 1; }
 
